@@ -382,6 +382,7 @@ Definition run_marker (cmd : string) (args : list string) : option (list string)
            | Some (Err e, []) => ["err"; err_str e]
            | _ => ["baddecoding"] end
     | _ => None end
+  else if seq cmd "canon" then Some (map canon_name args)
   else if seq cmd "mleaf" then
     match args with
     | [name; cstr; sw] =>
